@@ -151,6 +151,10 @@ public:
 	static void IncrementTime(double);
 #endif /* I2_DEBUG */
 
+#ifdef ICINGA2_VERIF
+	static void VerifSetTime(double);
+#endif /* ICINGA2_VERIF */
+
 	/**
 	 * TruncateUsingHash truncates a given string to an allowed maximum length while avoiding collisions in the output
 	 * using a hash function (SHA1).
@@ -191,6 +195,10 @@ private:
 #ifdef I2_DEBUG
 	static double m_DebugTime;
 #endif /* I2_DEBUG */
+
+#ifdef ICINGA2_VERIF
+	static double m_VerifTime;
+#endif /* ICINGA2_VERIF */
 
 	static boost::thread_specific_ptr<String> m_ThreadName;
 	static boost::thread_specific_ptr<unsigned int> m_RandSeed;
